@@ -5,19 +5,28 @@ E1 (bounded exhaustive enumeration, everything executed on the real clikit class
 product that is far too large to run as one block (catalogue^6 x widths x formats x trees), so it is cut
 into PARTS; each part is a complete product over the dimensions that interact in the code under test:
 
-  params   one plain command x every valid sequence of 0..K arguments x every multiset of 0..K options
-           (kind catalogues below) x {minimum width, 80} x {plain, ANSI}          -> CommandHelp
-  widths   one plain command x (0..2 args x 0..1 opts  u  0..1 args x 0..2 opts) x EVERY width of the
-           tier x {plain, ANSI}                                                    -> CommandHelp
+  params   one plain command x every valid sequence of 0..2 arguments x every multiset of 0..2 options
+           (full kind catalogues below) x {minimum width, 80} x {plain, ANSI}     -> CommandHelp
+  params3  (thorough) full catalogues, (3 args x 0..2 opts) u (0..2 args x 3 opts), and
+  params3x3  the 3 args x 3 opts corner over the reduced catalogues; each at (minimum width, plain)
+           and (80, ANSI)                                                          -> CommandHelp
+  widths   one plain command with a long manual x a cross of the catalogues (quick: 0..2 args | 1 arg x
+           1 opt | 2 opts;  thorough: 0..2 args x 0..1 opts u 0..1 args x 2 opts) x EVERY width of the
+           tier (quick 13 widths, thorough 40..200) x {plain, ANSI}                -> CommandHelp
   globals  application kind {bare ApplicationConfig, DefaultApplicationConfig} x 0..2 extra global
-           options from the option catalogue (x optional global argument) x small command params
-           x 2 widths x 2 formats                                -> ApplicationHelp, CommandHelp, run
-  nest     parent/child command pair, params on both (inherited arguments and options, the child's
-           parameters listed inside the parent's COMMANDS block)                   -> CommandHelp of both
-  trees    every tree shape with <= N nodes x every assignment of the marks plain / aliased / default /
+           options from the option catalogue (default kind, quick: 0..1) x {no, optional, required (bare
+           only)} global argument x small command params x 2 widths x 2 formats
+                                                                 -> ApplicationHelp, CommandHelp, run
+  nest     parent/child command pair, 0..1 argument and 0..1 option on both (inherited arguments and
+           options, the child's parameters listed inside the parent's COMMANDS block; quick: reduced
+           catalogues, thorough: full) x 2 widths x 2 formats                      -> CommandHelp of both
+  trees    every tree shape with <= 3 nodes x every assignment of the marks plain / aliased / default /
            anonymous / hidden / disabled / hidden+default to the nodes x 2 widths x 2 formats
            -> ApplicationHelp, CommandHelp of every enabled command, and `help <path>`,
               `<path> --help`, `<path> -h` through ConsoleApplication.run (alias spellings too)
+  trees4   (thorough) the same for the nine shapes with 4 nodes (depth <= 4), at (minimum width, plain)
+           and (80, ANSI)
+A page is only rendered at widths >= its own minimum width (see min_width()).
 
 ORACLE (known by construction: the generator built the configuration, so it knows which names must and
 must not be on which page).  Text is judged after removing SGR sequences.
@@ -692,7 +701,7 @@ def jobs_for(tier):
 
 
 # ---------------------------------------------------------------------------------------------------
-def run_job(job, tier, extra_w, cap=None):
+def run_job(job, tier, extra_w):
     """-> dict(pages, units, nontrivial, rejected, invalid, viols=[(unit index, violation)])"""
     part, spec, wmode, mode = job
     res = dict(pages=0, units=0, nontrivial=0, rejected=0, invalid=0, viols=[])
